@@ -405,17 +405,19 @@ func c04FaultLayer(c *explore.Ctx) {
 				if !c.Mine() {
 					continue
 				}
-				for n := 1; n < 200; n++ {
-					if c.Expired() || c.NViolations() > 0 {
-						return
-					}
-					done, v := c04FaultCase(c, base, x.b, x.cfg, pre, o, n, memo)
-					if v != nil {
-						c.Violation(*v)
-						return
-					}
-					if done {
-						break
+				for _, partial := range []bool{false, true} {
+					for n := 1; n < 200; n++ {
+						if c.Expired() || c.NViolations() > 0 {
+							return
+						}
+						done, v := c04FaultCase(c, base, x.b, x.cfg, pre, o, n, memo, partial)
+						if v != nil {
+							c.Violation(*v)
+							return
+						}
+						if done {
+							break
+						}
 					}
 				}
 			}
@@ -424,15 +426,17 @@ func c04FaultLayer(c *explore.Ctx) {
 }
 
 // c04FaultCase injects the fault at the n-th mutating call of op. done = the operation makes fewer than n such calls.
-func c04FaultCase(c *explore.Ctx, base *explore.Base, bname, cfg string, pre []explore.Op, o explore.Op, n int, memo recMemo) (bool, *explore.Violation) {
+func c04FaultCase(c *explore.Ctx, base *explore.Base, bname, cfg string, pre []explore.Op, o explore.Op, n int, memo recMemo, partial ...bool) (bool, *explore.Violation) {
 	s := base.NewSess()
+	part := len(partial) > 0 && partial[0]
+	s.FS.FailPartial = part
 	mk := func(class, msg string) *explore.Violation {
 		w := append(append([]explore.Op(nil), pre...), o)
 		return &explore.Violation{
-			Key:    fmt.Sprintf("fault %s base=%s cfg=%s word=%s fault@%d", class, bname, cfg, explore.WordString(w), n),
-			What:   fmt.Sprintf("base %s/%s, [%s] with a transient I/O error injected at mutating file-system call #%d of %s: %s", bname, cfg, explore.WordString(w), n, o, msg),
+			Key:    fmt.Sprintf("fault %s base=%s cfg=%s word=%s fault@%d partial=%v", class, bname, cfg, explore.WordString(w), n, part),
+			What:   fmt.Sprintf("base %s/%s, [%s] with a transient I/O error injected at mutating file-system call #%d of %s (a data write hit by it writes %s): %s", bname, cfg, explore.WordString(w), n, o, map[bool]string{true: "half of its bytes and reports that count", false: "nothing"}[part], msg),
 			Size:   len(w)*1000 + n,
-			Replay: map[string]interface{}{"kind": "fault04", "base": bname, "cfg": cfg, "word": opsJSON(w), "fault_at": n, "class": class, "observed": msg},
+			Replay: map[string]interface{}{"kind": "fault04", "base": bname, "cfg": cfg, "word": opsJSON(w), "fault_at": n, "partial": part, "class": class, "observed": msg},
 		}
 	}
 	if err := s.OpenDB(); err != nil {
@@ -489,6 +493,41 @@ func c04FaultCase(c *explore.Ctx, base *explore.Base, bname, cfg string, pre []e
 	if o.Kind != explore.Close || err != nil {
 		if v := judge("the process dies", s.FS.Clone()); v != nil {
 			return false, v
+		}
+	}
+	// (C) the process carries on: two more writes (acknowledged unless they fail too), then it dies. Everything
+	// acknowledged after the failed operation must survive the recovery as well.
+	if o.Kind != explore.Close && s.DB != nil {
+		s2m0, s2m1 := m0.Clone(), m1.Clone()
+		img0 := s.FS.Clone() // state to come back to for continuation (B)
+		_ = img0
+		later := []explore.Op{{Kind: explore.Put, Key: "b"}, {Kind: explore.Put, Key: "a"}}
+		ackedAll := true
+		for _, lo := range later {
+			val := fmt.Sprintf("v%03d", (s.NVal+1)%1000)
+			if lerr := s.Apply(lo); lerr == nil {
+				s2m0[string(s.Keys[lo.Key])] = val
+				s2m1[string(s.Keys[lo.Key])] = val
+			} else {
+				ackedAll = false
+			}
+			if s.Panicked != "" {
+				return false, mk("panic", s.Panicked)
+			}
+		}
+		if ackedAll {
+			c.Add("images", 1)
+			rec := explore.RecoverImage(s.FS.Clone(), base.Cfg, base.Keys, base.Probe, base.Seed, explore.RecoverOpts{})
+			if msg := explore.Admissible(rec, s2m0, s2m1, err == nil, s.KeyName); msg != "" {
+				return false, mk("after-more-writes", fmt.Sprintf("the operation returned %v; the process then did Put(b), Put(a) (both acknowledged) and died; the next process's Open: %s", err, msg))
+			}
+		}
+		// continuation (B) is judged on the state after these writes as well
+		m0, m1 = s2m0, s2m1
+		if !ackedAll {
+			// a later write failed too: its effect is undetermined; skip the exact-contents oracle of (B)
+			_ = s.ProtectedClose()
+			return false, nil
 		}
 	}
 	// (B) the process closes the database (Close may fail as well) and exits
